@@ -116,7 +116,7 @@ PROPS_EXTRA = {"C06": ["Props.EffectFacts", "Props.CodecFacts", "Props.SlicesGen
                "C01": ["Props.SlicesGen"], "C05": ["Props.SlicesGen"],
                "C07": ["Props.CodecFacts"], "C08": ["Props.CodecFacts", "Props.SlicesGen"], "C12": ["Props.CodecFacts"],
                "C18": ["Props.CodecFacts", "Props.SlicesGen"], "C09": ["Props.SlicesGen"], "C10": ["Props.SlicesGen"],
-               "C14": ["Props.SlicesGen"]}
+               "C14": ["Props.SlicesGen"], "C16": ["Props.SlicesGen"]}
 _core_prop("C06", "Merge admits only verified, authorised entries and is all-or-nothing",
     r"(join|joinN|append|tamper)/(join\..*|append\.denied|entries|len|heads|rawheads|values|clock|snapshot\..*|json\.heads)",
     "Lean 4: theorems on the transcription of Join with an abstract per-candidate validity predicate (join_rejects, join_admits for every size bound, heads admitted), denied append, create-then-verify under an abstract codec/crypto; differential replay with access-controller denial and tampered source logs",
